@@ -70,6 +70,22 @@ func check(tb ev.TB, c wsim.Case) (labels []string, nontrivial bool) {
 			fail("c08/multi-partition-request", "produce request seq %d carries %d topics / %d partitions", p.Seq, p.NTopics, p.NParts)
 			return
 		}
+		// "all records of one request belong to a single topic-partition": judged by where the balancer sent each record
+		for _, id := range p.IDs {
+			first, ok1 := res.Choice[p.IDs[0]]
+			ch, ok2 := res.Choice[id]
+			if ok1 && ok2 && (first[0] != ch[0] || first[1] != ch[1]) {
+				name := func(x [2]any) string {
+					t, _ := x[0].(string)
+					if t == "" {
+						t = c.Topics[0]
+					}
+					return fmt.Sprintf("%s/%v", t, x[1])
+				}
+				fail("c08/request-mixes-partitions", "produce request seq %d (for %s/%d) carries message %v, which the balancer sent to %s, next to message %v, which it sent to %s", p.Seq, p.Topic, p.Partition, p.IDs[0], name(first), id, name(ch))
+				return
+			}
+		}
 		if len(p.IDs) > c.BatchSize {
 			fail("c08/batch-size", "produce request seq %d carries %d messages, BatchSize is %d", p.Seq, len(p.IDs), c.BatchSize)
 			return
